@@ -17,6 +17,9 @@ LinFam(V0, V1, D, Lo, Hi, Pairs) ==
     {CM("LINEAR", tp[1], tp[2], <<LinScale(lo, hi, v0, v1, d)>>) :
         tp \in Pairs, lo \in Lo, hi \in Hi, v0 \in V0, v1 \in V1, d \in D}
 \* a LINEAR method whose COMPU-DENOMINATOR is left out
+\* slopes whose inverse is not exact in binary floating point, probed over a 7-bit domain
+LinWide == {[CM("LINEAR", tp[1], tp[2], <<LinScale(Absent, Absent, v0, 1, d)>>) EXCEPT !.invok = FALSE] @@ [wide |-> TRUE] :
+              tp \in {<<"int", "float">>, <<"uint", "float">>}, v0 \in {0, 5}, d \in {3, 10, 7}}
 LinNoDen == {CM("LINEAR", "int", "int", <<S(Lim("CLOSED", 0), Lim("CLOSED", 10), <<1, 2>>, <<>>)>>)}
 
 (* SCALE-LINEAR: boundaries 0, 4, 8, 12 *)
@@ -69,12 +72,20 @@ TextFam == {[CM("TEXTTABLE", it, "text", sc) EXCEPT !.dflt = d, !.dfltinv = di] 
 Simple == {CM("IDENTICAL", "int", "int", <<>>), CM("IDENTICAL", "uint", "uint", <<>>), CM("IDENTICAL", "float", "float", <<>>),
            CM("COMPUCODE", "int", "int", <<>>)}
 
-FamQuick == LinFam({0, 5}, {-2, 0, 1, 3}, {1, 2, 10}, {Absent, Lim("CLOSED", 0), Lim("OPEN", 0), Lim("INFINITEV", 5)},
-                   {Absent, Lim("CLOSED", 10), Lim("OPEN", 10), Lim("INFINITE", 0), Lim("INFINITEV", 5)}, NumPairs)
-            \cup LinNoDen \cup ScaleLin2(NumPairs3) \cup Tab3(TabPairs) \cup RatFam(NumPairs3) \cup TextFam \cup Simple
-FamThorough == LinFam({-3, 0, 5}, {-2, 0, 1, 3}, {1, 2, 3, 10}, LoLims, HiLims, NumPairs)
-            \cup LinNoDen \cup ScaleLin2(NumPairs3) \cup ScaleLin3(NumPairs3) \cup Tab3(TabPairs) \cup Tab4({<<"int", "int">>, <<"int", "float">>})
-            \cup RatFam(NumPairs3) \cup TextFam \cup Simple
+PickLin(V0, V1, D, Lo, Hi, Pairs) ==
+    \E tp \in Pairs, lo \in Lo, hi \in Hi, v0 \in V0, v1 \in V1, d \in D :
+        Pick(CM("LINEAR", tp[1], tp[2], <<LinScale(lo, hi, v0, v1, d)>>))
+PickFrom(Fam) == \E c \in Fam : Pick(c)
+NextQuick == \/ PickLin({0, 5}, {-2, 0, 1, 3}, {1, 2, 10}, {Absent, Lim("CLOSED", 0), Lim("OPEN", 0), Lim("INFINITEV", 5)},
+                        {Absent, Lim("CLOSED", 10), Lim("OPEN", 10), Lim("INFINITE", 0), Lim("INFINITEV", 5)}, NumPairs)
+             \/ PickFrom(LinNoDen) \/ PickFrom(LinWide) \/ PickFrom(ScaleLin2(NumPairs3)) \/ PickFrom(Tab3(TabPairs))
+             \/ PickFrom(RatFam(NumPairs3)) \/ PickFrom(TextFam) \/ PickFrom(Simple) \/ Evaluate
+NextThorough == \/ PickLin({-3, 0, 5}, {-2, 0, 1, 3}, {1, 2, 3, 10}, LoLims, HiLims, NumPairs)
+                \/ PickFrom(LinNoDen) \/ PickFrom(LinWide) \/ PickFrom(ScaleLin2(NumPairs3)) \/ PickFrom(ScaleLin3(NumPairs3))
+                \/ PickFrom(Tab3(TabPairs)) \/ PickFrom(Tab4({<<"int", "int">>, <<"int", "float">>}))
+                \/ PickFrom(RatFam(NumPairs3)) \/ PickFrom(TextFam) \/ PickFrom(Simple) \/ Evaluate
+SpecQuick == Init /\ [][NextQuick]_vars
+SpecThorough == Init /\ [][NextThorough]_vars
 
 Emit == Done => PrintT(ToJson([cm |-> cm, injective |-> Injective(cm), moncont |-> MonCont(cm),
                                itab |-> ITab(cm), ptab |-> PTab(cm), ttab |-> TTab(cm)]))
